@@ -18,6 +18,7 @@ func init() {
 	register("C20_Middlewares", C20_Middlewares)
 	register("C20_SMTPMailer", C20_SMTPMailer)
 	register("C20_BodyReader", C20_BodyReader)
+	register("C20_MailGoroutines", C20_MailGoroutines)
 	register("C20_ResponderRedirector", C20_ResponderRedirector)
 }
 
@@ -189,4 +190,44 @@ func C20_ResponderRedirector() {
 	}), r)
 	n := verif.SharedWrites("no data race between concurrent requests")
 	verif.Assert(n == 0, "responder and redirector write no state shared between requests")
+}
+
+// C20_MailGoroutines: the flows that start a mail goroutine (recover, register+confirm, 2FA
+// e-mail verification), behind a data-injecting middleware (ModuleListMiddleware), with the
+// goroutines enabled: the goroutine writes nothing it shares with the request goroutine.
+func C20_MailGoroutines() {
+	verif.ReplayInInterpreter()
+	verif.SyncCensus()
+	o := fullOpts()
+	o.emailAuth = true
+	rr := &recordingRouter{}
+	f := newFlowWith(o, func(w *world.World) {
+		c := &w.AB.Config
+		c.Core.ViewRenderer = defaults.JSONRenderer{}
+		c.Core.MailRenderer = defaults.JSONRenderer{}
+		defaults.SetCore(c, false, false)
+		c.Core.BodyReader = w.Body
+		c.Core.Redirector = w.Redirector
+		rr.Router = c.Core.Router.(*defaults.Router)
+		c.Core.Router = rr
+	})
+	f.w.AB.Config.Modules.MailNoGoroutine = false
+	routes := []string{"POST /recover", "POST /register", "POST /2fa/totp/email/verify"}
+	route := routes[verif.Choice("route", len(routes))]
+	if route == "POST /2fa/totp/email/verify" {
+		f.w.Session.Set(authboss.SessionKey, pid0)
+		f.w.Session.Del(authboss.SessionHalfAuthKey)
+	}
+	h := authboss.ModuleListMiddleware(f.w.AB)(f.w.AB.Config.Core.Router)
+	verif.MarkShared(f.w.AB, h)
+	r := world.Request("POST", route[len("POST "):], "")
+	f.w.Body.Next = symbolicValues()
+	nMail := len(f.w.Mail.Sent)
+	panicked, _ := world.Try(func() { f.w.Serve(h, r) })
+	if panicked {
+		return
+	}
+	_ = nMail
+	n := verif.SharedWrites("no data race between a request and the mail goroutine it starts")
+	verif.Assert(n == 0, "mail goroutines write nothing they share with the request")
 }
